@@ -15,7 +15,20 @@ use serde::{Deserialize, Serialize};
 pub const FAMILIES: &[&str] = &[
     "hll", "hll_union", "theta", "theta_v4", "cpc", "cpc_union", "bloom", "cm_u8", "cm_u16", "cm_u32", "cm_u64", "cm_i8",
     "cm_i16", "cm_i32", "cm_i64", "fi_i64", "fi_u64", "fi_str", "td",
+    // ForeignWriter variants (independent spec encoder): layouts this library never writes itself
+    "hll_foreign", "theta_foreign", "td_foreign", "bloom_foreign",
 ];
+
+/// The reader family an image of this corpus family is addressed to.
+pub fn reader_family(fam: &str) -> &str {
+    match fam {
+        "hll_foreign" => "hll",
+        "theta_foreign" => "theta",
+        "td_foreign" => "td",
+        "bloom_foreign" => "bloom",
+        f => f,
+    }
+}
 
 #[derive(Clone, Debug, Serialize, Deserialize)]
 pub struct Spec {
@@ -61,6 +74,14 @@ pub fn gen_spec(rng: &mut Rng, fam: &str) -> Spec {
             };
             (lg_k, rng.below(3), n)
         }
+        "hll_foreign" => {
+            let lg_k = rng.range(4, 11);
+            let k = 1u64 << lg_k;
+            (lg_k, rng.below(3), match rng.below(4) { 0 => rng.range(0, 7), 1 => rng.range(8, (3 * k / 32).max(9)), _ => rng.range(k / 4, 3 * k) })
+        }
+        "theta_foreign" => (rng.range(1, 4), 0, match rng.below(4) { 0 => 0, 1 => 1, _ => rng.range(2, 400) }),
+        "td_foreign" => (*rng.pick(&[10u64, 50, 200]), rng.below(4), match rng.below(4) { 0 => 0, 1 => 1, _ => rng.range(2, 60) }),
+        "bloom_foreign" => (rng.range(1, 3000), rng.range(1, 8), rng.range(0, 100)),
         "theta" | "theta_v4" => {
             let lg_k = rng.range(5, 9);
             let k = 1u64 << lg_k;
@@ -247,6 +268,56 @@ pub fn build_image(s: &Spec, generation: u8) -> Vec<u8> {
                 sk.update_with_count(fi_item_str(it), weight_for(&mut r, 5));
             }
             sk.serialize()
+        }
+        "hll_foreign" => {
+            use crate::speccodec::hll as h;
+            let lg_k = (s.a as u8).clamp(4, 21);
+            let mut r = Rng::new(s.seed);
+            let coupons: std::collections::BTreeSet<u32> = (0..n).map(|_| ((1 + r.geometric(40).min(60)) << 26) | (r.next_u32() & 0x3ff_ffff)).collect();
+            let list: Vec<u32> = coupons.iter().copied().collect();
+            let mode = if list.len() < 8 { 0 } else if lg_k >= 8 && 4 * list.len() <= 3 * (1usize << (lg_k - 3)) { 1 } else { 2 };
+            let regs = crate::model::hll::fold_coupons(coupons.iter(), lg_k);
+            let layout = if s.var & 1 == 0 { h::Layout::Compact } else { h::Layout::Updatable };
+            if mode == 2 && regs.iter().all(|&v| v == 0) {
+                return h::encode(lg_k, (s.b % 3) as u8, 0, &[], &regs, false, 0.0, layout);
+            }
+            h::encode(lg_k, (s.b % 3) as u8, mode, &list, &regs, s.var & 2 != 0, list.len() as f64, layout)
+        }
+        "theta_foreign" => {
+            use crate::speccodec::theta as t;
+            let ver = (s.a as u8).clamp(1, 4);
+            let mut r = Rng::new(s.seed);
+            let theta = if s.var & 1 == 0 { t::MAX_THETA } else { t::MAX_THETA >> (1 + s.var % 5) };
+            let mut set: std::collections::BTreeSet<u64> = (0..n).map(|_| 1 + r.below(theta - 1)).collect();
+            if ver == 4 && set.len() < 2 {
+                set.insert(theta / 3 + 1);
+                set.insert(theta / 2 + 1);
+            }
+            let list: Vec<u64> = set.into_iter().collect();
+            let empty = list.is_empty() && theta == t::MAX_THETA;
+            t::encode(ver, &list, theta, empty, true, crate::refhash::seed_hash(9001), s.var & 4 != 0, s.var & 8 != 0)
+        }
+        "td_foreign" => {
+            use crate::speccodec::td as t;
+            let mut r = Rng::new(s.seed);
+            let form = match s.b % 4 { 0 => t::Form::NativeF64, 1 => t::Form::NativeF32, 2 => t::Form::CompatDouble, _ => t::Form::CompatFloat };
+            let mut cs: Vec<(f64, u64)> = (0..n).map(|i| ((i as f64 * 1.5 + r.f64()) as f32 as f64, 1 + r.below(500))).collect();
+            cs.sort_by(|a, b| a.0.partial_cmp(&b.0).unwrap());
+            let (mn, mx) = (cs.first().map(|c| c.0 - 1.0).unwrap_or(0.0), cs.last().map(|c| c.0 + 1.0).unwrap_or(0.0));
+            let (mn, mx) = if cs.len() == 1 && cs[0].1 == 1 { (cs[0].0, cs[0].0) } else { (mn, mx) };
+            if cs.len() == 1 {
+                cs[0].1 = cs[0].1.max(if matches!(form, t::Form::NativeF64 | t::Form::NativeF32) { 2 } else { 1 });
+            }
+            let buf: Vec<f64> = if matches!(form, t::Form::NativeF64 | t::Form::NativeF32) && !cs.is_empty() { (0..s.var % 4).map(|i| (cs[0].0 + i as f64) as f32 as f64).collect() } else { vec![] };
+            t::encode((s.a as u16).max(10), mn, mx, &cs, &buf, s.var & 16 != 0, form)
+        }
+        "bloom_foreign" => {
+            let mut m = crate::scen::c09::BloomModel::new(s.a.max(1), (s.b as u16).max(1), s.seed);
+            let mut r = Rng::new(s.seed);
+            for _ in 0..n {
+                m.insert(r.next_u64());
+            }
+            crate::scen::c09::encode_image(&m, true)
         }
         "td" => {
             let mut d = TDigestMut::new(s.a as u16);
